@@ -1,7 +1,7 @@
 (* Properties_C19.v -- the property theorems, nothing else. *)
 From Coq Require Import List Arith Bool Relations.
 Import ListNotations.
-From Heph Require Import Graph.Model Graph.Spec Graph.Proofs.
+From Heph Require Import Graph.Model Graph.Spec Graph.Proofs Graph.ProofsPaths Graph.ProofsDfs.
 
 Theorem bi_reachable_is_symmetric_closure_of_reachable :
   forall g s d, bi_reachable g s d = reachable g s d || reachable g d s.
@@ -41,3 +41,62 @@ Theorem find_all_connected_correct :
   forall g s n, In n (find_all_connected g s) <-> (In n (keys g) /\ connected g s n = true).
 Proof. exact find_all_connected_correct_lem. Qed.
 Print Assumptions find_all_connected_correct.
+
+Theorem find_all_paths_correct :
+  forall g s, exists l, find_all_paths_opt g s = Some l /\ (forall p, In p l <-> SimplePath g s p).
+Proof. exact find_all_paths_correct_lem. Qed.
+Print Assumptions find_all_paths_correct.
+
+Theorem find_all_paths_nodup :
+  forall g s, (forall u, NoDup (adj g u)) -> NoDup (find_all_paths g s).
+Proof. exact find_all_paths_nodup_lem. Qed.
+Print Assumptions find_all_paths_nodup.
+
+Theorem find_longest_paths_correct :
+  forall g s p, In p (find_longest_paths g s) <-> Maximal g s p.
+Proof. exact find_longest_paths_correct_lem. Qed.
+Print Assumptions find_longest_paths_correct.
+
+Theorem find_all_reachable_correct :
+  forall g s v, In v (find_all_reachable g s) <-> Path g s v.
+Proof. exact find_all_reachable_correct_lem. Qed.
+Print Assumptions find_all_reachable_correct.
+
+Theorem find_sources_correct :
+  forall g v, WfGraph g -> In v (keys g) ->
+    exists l, find_sources_out g v = Ok l /\ NoDup l /\
+              (forall x, In x l <-> (Source g x /\ KPath g x v)).
+Proof. exact find_sources_correct_lem. Qed.
+Print Assumptions find_sources_correct.
+
+Theorem dfs_correct :
+  forall g s, exists l, dfs_opt g s = Some l /\ (forall v, In v l <-> (v <> s /\ Path g s v)).
+Proof. exact dfs_correct_lem. Qed.
+Print Assumptions dfs_correct.
+
+(* non-vacuity: a well-formed graph with the cycle 0 -> 1 -> 2 -> 0, the self-loop
+   2 -> 2, the isolated vertex 3 and the source 4 -> 0; the hypotheses of the theorems
+   above are satisfiable and the functions return the expected concrete values. *)
+Example c19_nonvacuous :
+  let g : graph := [(0, [1]); (1, [2]); (2, [0; 2]); (3, []); (4, [0])] in
+  WfGraph g /\ (forall u, NoDup (adj g u)) /\
+  reachable g 0 2 = true /\ reachable g 0 3 = false /\ reachable g 0 4 = false /\
+  reachable g 4 2 = true /\ bi_reachable g 2 4 = true /\
+  connected g 1 4 = true /\ connected g 3 0 = false /\
+  find_sources_out g 2 = Ok [4] /\ find_sources_out g 3 = Ok [3] /\
+  find_sources_out g 7 = KeyError /\
+  dfs_opt g 0 = Some [2; 1] /\ dfs_opt g 3 = Some [] /\
+  find_all_paths_opt g 4 = Some [[4]; [4; 0]; [4; 0; 1]; [4; 0; 1; 2]] /\
+  find_longest_paths g 4 = [[4; 0; 1; 2]] /\
+  find_all_reachable g 4 = [4; 0; 1; 2] /\
+  find_all_bi_reachable g 0 = [0; 1; 2; 4] /\
+  find_all_connected g 0 = [0; 1; 2; 4].
+Proof.
+  intros g. split; [|split].
+  - unfold WfGraph. vm_compute.
+    repeat (constructor; [cbn [In]; intuition discriminate|]). constructor.
+  - intros u. do 5 (destruct u as [|u]; [vm_compute; repeat (constructor; [cbn [In]; intuition discriminate|]); constructor|]).
+    vm_compute. constructor.
+  - vm_compute. repeat split.
+Qed.
+Print Assumptions c19_nonvacuous.
